@@ -58,3 +58,9 @@ for seed in seeds:
         print(f"      {p}: {res[p][1]}")
     matrix[seed] = {"fired": fired, "errors": errs, "detail": {p: res[p][1] for p in fired + errs}}
 json.dump(matrix, open(os.path.join(VERIF, "seeded", "MATRIX.json"), "w"), indent=1)
+if not args:
+    with open(os.path.join(VERIF, "seeded", "MATRIX.md"), "w") as fh:
+        fh.write("# Seeded changes x checks (quick tier): which checks report a VIOLATION\n\n| change | checks that fire (exit 1) | analysis errors (exit 2) |\n|---|---|---|\n")
+        for seed in seeds:
+            m = matrix[seed]
+            fh.write(f"| {seed} | {', '.join(m['fired']) or '-'} | {', '.join(m['errors']) or '-'} |\n")
